@@ -52,30 +52,41 @@ static const char vr_alpha[7] = { 'a', 'b', ' ', ':', '\'', '"', '\\' };
 char w_in[VR_BUF];
 unsigned w_len;
 
-/* nondeterministic input of length <= VERIF_MAXLEN over the alphabet, in an exact-size block */
+/* Nondeterministic input of length <= VERIF_MAXLEN over the alphabet.  Length and every character are
+ * NAMED inputs (VND): cbmc picks them, the native replay (driver field `native: self`) reads the witness
+ * values W_len, W_c0..W_c6 and W_gk (the ghost index) from the environment.
+ * cbmc: the string is placed at the END of one block of VERIF_MAXLEN+1 bytes, so that its terminator is the
+ * last byte of the object: any read past the terminator is out of bounds, for every length, with a single
+ * constant-size object (one object per length makes the encoding 7 times larger).  Reads BEFORE the first
+ * character would stay inside the block; none of the scanners under test moves backwards, and the bytes
+ * before the string are left uninitialised (arbitrary).
+ * native: a malloc block of exactly length+1 bytes (ASan red zones on both sides). */
 static char *vr_input(unsigned *plen)
 {
     unsigned n, i;
+    unsigned char k[7];
     char *s;
 #ifdef VERIF_FIXLEN
-    n = VERIF_FIXLEN;                  /* constant: one unit per length */
+    n = VERIF_FIXLEN;
 #else
-    n = nondet_uint();
+    n = (unsigned) VND(uint, len);
     __CPROVER_assume(n <= VERIF_MAXLEN);
 #endif
-    /* The string is placed at the END of one block of VERIF_MAXLEN+1 bytes, so that its terminator is the
-     * last byte of the object: any read past the terminator is out of bounds, for every length, with a
-     * single constant-size object (one object per length makes the encoding 7 times larger).  Reads
-     * BEFORE the first character would stay inside the block; none of the scanners under test moves
-     * backwards, and the bytes before the string are left uninitialised (arbitrary). */
+    k[0] = (unsigned char) VND(uchar, c0); k[1] = (unsigned char) VND(uchar, c1);
+    k[2] = (unsigned char) VND(uchar, c2); k[3] = (unsigned char) VND(uchar, c3);
+    k[4] = (unsigned char) VND(uchar, c4); k[5] = (unsigned char) VND(uchar, c5);
+    k[6] = (unsigned char) VND(uchar, c6);
+#ifdef VERIF_NATIVE
+    s = (char *) malloc(n + 1);
+#else
     s = (char *) __CPROVER_allocate(VERIF_MAXLEN + 1, 0) + (VERIF_MAXLEN - n);
+#endif
     /* ghost indices are arbitrary in every B harness (plain cbmc zero-initialises globals) */
-    vg_k = nondet_size_t();
-    vg_k2 = nondet_size_t();
+    vg_k = (size_t) VND(size_t, gk);
+    vg_k2 = (size_t) VND(size_t, gk2);
     for (i = 0; i < n; i++) {
-        unsigned char k = nondet_uchar();
-        __CPROVER_assume(k < 7);
-        s[i] = vr_alpha[k];
+        __CPROVER_assume(k[i] < 7);
+        s[i] = vr_alpha[k[i]];
         w_in[i] = s[i];
     }
     s[n] = 0;
@@ -103,9 +114,6 @@ typedef struct {
     unsigned cnt;                      /* number of tokens */
     unsigned len[VR_MAXTOK];           /* their lengths */
     char t[VR_MAXTOK][VR_BUF];         /* their texts, NUL-terminated */
-    /* input classes, used only to give the assertions of known-defective classes their own names */
-    int f_mixed;                       /* a quote character of the other kind occurred inside quotes */
-    int f_trailbs;                     /* the input ends in a backslash that is not itself escaped */
 } vr_toks_t;
 
 /* ---- token grammar ---------------------------------------------------------------------------- */
@@ -114,15 +122,12 @@ static void vr_tokenize(const char *delim, const char *s, vr_toks_t *r)
     unsigned i = 0, n;
     char q;
     r->cnt = 0;
-    r->f_mixed = 0;
-    r->f_trailbs = 0;
     while (vr_isdelim(delim, s[i])) i++;
     while (s[i] != 0) {
         n = 0;
         q = 0;
         while (s[i] != 0 && (q != 0 || !vr_isdelim(delim, s[i]))) {
             char c = s[i];
-            if (c == '\\' && s[i + 1] == 0) r->f_trailbs = 1;
             if (q != 0 && c == q) {                         /* closing quote: removed */
                 q = 0; i++;
             } else if (q == 0 && (c == '\'' || c == '"')) { /* opening quote: removed */
@@ -132,7 +137,6 @@ static void vr_tokenize(const char *delim, const char *s, vr_toks_t *r)
                 r->t[r->cnt][n++] = s[i + 1];               /* escaped delimiter / closing quote: literal */
                 i += 2;
             } else {
-                if (q != 0 && (c == '\'' || c == '"')) r->f_mixed = 1;
                 r->t[r->cnt][n++] = c;                      /* ordinary character */
                 i++;
             }
